@@ -74,22 +74,29 @@ def build(ctx, shape, ids):
     # rebuild with explicit/mixed ids drawn from the pool
     from fggs import Node, Edge, Graph, HRG, HRGRule
     g2 = HRG(hrg.start)
+    g2._verif_requested = []      # per rule: the explicit ids the harness ASKED for (sorted node ids, sorted edge ids)
     for r in hrg.all_rules():
         pool = NUMERIC_IDS[:]
         ctx.rng.shuffle(pool)
         rhs = Graph()
         m = {}
+        req_nodes, req_edges = [], []
         for v in r.rhs.nodes():
             explicit = ids == 'explicit' or ctx.rng.random() < 0.5
-            m[v] = Node(v.label, id=pool.pop() if explicit and pool else None)
+            want_id = pool.pop() if explicit and pool else None
+            m[v] = Node(v.label, id=want_id)
+            if want_id is not None: req_nodes.append(want_id)
             rhs.add_node(m[v])
         pool2 = NUMERIC_IDS[:]
         ctx.rng.shuffle(pool2)
         for e in r.rhs.edges():
             explicit = ids == 'explicit' or ctx.rng.random() < 0.5
-            rhs.add_edge(Edge(e.label, [m[v] for v in e.nodes], id=pool2.pop() if explicit and pool2 else None))
+            want_id = pool2.pop() if explicit and pool2 else None
+            if want_id is not None: req_edges.append(want_id)
+            rhs.add_edge(Edge(e.label, [m[v] for v in e.nodes], id=want_id))
         rhs.ext = [m[v] for v in r.rhs.ext]
         g2.add_rule(HRGRule(r.lhs, rhs))
+        g2._verif_requested.append((r.lhs.name, sorted(req_nodes), sorted(req_edges)))
     for el in hrg.edge_labels():
         g2.add_edge_label(el)
     for nl in hrg.node_labels():
@@ -138,6 +145,15 @@ def run(ctx):
         nontriv = len(rules) >= 2 or any(len(list(r.rhs.nodes())) >= 3 for r in rules)
         ctx.case(dict(ids=ids, json=j1), (ids, s) if nontriv else None, sample_every=200)
         ctx.count(f'ids.{ids}')
+        # ---- explicit ids are preserved: the ids the harness asked for (incl. the empty string and other falsy-looking strings) are
+        # exactly the ids written out, rule by rule (all_rules() groups the rules by left-hand side, so match by lhs and id multiset)
+        if getattr(hrg, '_verif_requested', None) is not None:
+            want_ids = sorted((l, tuple(ns), tuple(es)) for l, ns, es in hrg._verif_requested)
+            got_ids = sorted((jr['lhs'], tuple(sorted(x['id'] for x in jr['rhs']['nodes'] if 'id' in x)),
+                              tuple(sorted(x['id'] for x in jr['rhs']['edges'] if 'id' in x))) for jr in j1['rules'])
+            if want_ids != got_ids:
+                ctx.fail('hrg_to_json does not write out exactly the explicit ids the nodes and edges were created with', dict(ids=ids, json=j1),
+                         got_ids, want_ids, tags=['roundtrip', 'explicit-ids-written'])
         # ---- (a) rule-level correspondence: toJson
         for r, jr in zip(rules, j1['rules']):
             reqs.append(f'C14.toJson {enc_rule(r)}'); meta.append(('to', r, jr, shape))
